@@ -545,4 +545,22 @@ def park_wake(ctx):
         out.append(ok('PARK-wake', 'pool|claims-WaitingForPoll', 'a queue abandoned by its polling task can be claimed by %s' % ', '.join(short(x) for x in sorted(pool_claims))))
     else:
         out.append(bad('PARK-wake', 'pool|claims-WaitingForPoll', 'only the future that parked the queue can resume it: if that future is dropped or never polled again the operation and everything behind it is stranded'))
+    # a queue is parked for a polling task only on a path where that task is told to poll again (Poll::Pending): a future that parks the
+    # queue for itself and reports Ready is never polled again, and without a free pool thread nobody else may take a WaitingForPoll queue
+    n = 0
+    for fname, _, snaps in events_of(P, 'exit_state'):
+        rows = [(T, rel, ret) for (T, rel, ret) in snaps if rel == 'WaitingForPoll']
+        if not rows:
+            continue
+        n += 1
+        key = '%s|WaitingForPoll-returns-Pending' % short(fname)
+        rets = set(ret for (T, rel, ret) in rows)
+        if rets == {('enum', 'Pending')}:
+            out.append(ok('PARK-wake', key, 'every path that parks the queue for the polling task returns Poll::Pending', fn=fname))
+        elif None in rets:
+            out.append(undecided('PARK-wake', key, 'return value of a path that parks the queue in WaitingForPoll is not tracked'))
+        else:
+            out.append(bad('PARK-wake', key, 'a path parks the queue as WaitingForPoll (reserved for this future\'s next poll) and returns %s: the future is not polled again, so only a free pool thread could ever resume the queue' % sorted(r[1] for r in rets if r), fn=fname))
+    if n == 0:
+        out.append(undecided('PARK-wake', 'floor:WaitingForPoll-park', 'no function parks the queue in WaitingForPoll (expected SchedulerFuture::drain_queue)'))
     return out
